@@ -62,10 +62,12 @@
         fs::write(root.join("canary.txt"), "CANARY-root").unwrap();
         fs::write(root.join("outside/a"), "CANARY-outside").unwrap();
         fs::write(root.join("base-private/a"), "CANARY-private").unwrap();
+        // directories with multi-byte names inside the base (a traversal hidden behind a non-ASCII segment must be caught too)
+        for d in ["ü", "日本語", "é/ü"] { fs::create_dir_all(base.join(d)).unwrap(); fs::write(base.join(d).join("a"), "INSIDE-nonascii").unwrap(); }
         let base_s = base.to_str().unwrap().to_string();
         let out_s = root.join("canary.txt").to_str().unwrap().to_string();
         let segs: Vec<String> = vec!["".into(), ".".into(), "..".into(), "...".into(), "a".into(), ".a".into(), "a.".into(), "a..b".into(), "a\\b".into(), "..\\a".into(),
-            "\0".into(), "%2e%2e".into(), "\u{2024}\u{2024}".into(), "sub".into(), "deep".into(), "canary.txt".into(), "outside".into(), "base-private".into(), ".hidden".into(),
+            "\0".into(), "ü".into(), "日本語".into(), "é".into(), "%2e%2e".into(), "\u{2024}\u{2024}".into(), "sub".into(), "deep".into(), "canary.txt".into(), "outside".into(), "base-private".into(), ".hidden".into(),
             base_s.trim_start_matches('/').to_string(), out_s.trim_start_matches('/').to_string(), "sub\\..\\..\\canary.txt".into()];
         let loader = path_loader(&base);
         let mut names: Vec<String> = Vec::new();
@@ -78,7 +80,7 @@
             frontier = next;
         }
         // four segments only for the traversal-relevant subset
-        let small = ["", ".", "..", "a", "sub", "canary.txt", "outside"];
+        let small = ["", ".", "..", "a", "sub", "canary.txt", "outside", "ü", "日本語"];
         for a in small { for b in small { for c in small { for d in small { names.push(format!("{a}/{b}/{c}/{d}")); } } } }
         let mut checked = 0u64;
         for name in &names {
@@ -107,6 +109,23 @@
             }
             let r = env.get_template(name);
             if let Ok(t) = r { assert!(!t.source().contains("CANARY"), "get_template({name:?}) returned a canary"); }
+        }
+        // the base directory is bound when the loader is created, whether or not it exists at that moment: a loader
+        // created for a directory that does not exist yet never serves files relative to the working directory (which
+        // holds Cargo.toml and src/lib.rs while this runs), neither before nor after the directory appears
+        let later = root.join("later/templates");
+        let early_loader = path_loader(&later);
+        for name in ["Cargo.toml", "src/lib.rs", "a", "Cargo.lock"] {
+            match early_loader(name) { Ok(None) | Err(_) => {}, Ok(Some(c)) => panic!("loader for the not yet existing {later:?} served {name:?} from elsewhere: {:?}", &c[..c.len().min(60)]) }
+        }
+        fs::create_dir_all(&later).unwrap();
+        fs::write(later.join("a"), "INSIDE-later").unwrap();
+        for name in ["Cargo.toml", "src/lib.rs", "a", "../../canary.txt"] {
+            match early_loader(name) { Ok(None) | Err(_) => {}, Ok(Some(c)) => assert!(c.starts_with("INSIDE"), "loader created before its base existed served {name:?}: {:?}", &c[..c.len().min(60)]) }
+        }
+        let rel_loader = path_loader("does/not/exist");
+        for name in ["Cargo.toml", "../../../Cargo.toml", "src/lib.rs"] {
+            match rel_loader(name) { Ok(None) | Err(_) => {}, Ok(Some(c)) => panic!("loader with a missing relative base served {name:?}: {:?}", &c[..c.len().min(60)]) }
         }
         let _ = fs::remove_dir_all(&root);
     }
